@@ -1064,7 +1064,7 @@ func checkTallyFormula(r *Result) {
 	r.check(slots == 9, "TALLY-FORMULA", "(x/dispute/keeper.Keeper).TallyVote # nine tally slots filled", P.Pos(tv.Pos()), fmt.Sprintf("%d", slots))
 	groupShares := map[string]int{}
 	for _, cs := range P.CallSitesIn(tv) {
-		if cs.Callee != "(cosmossdk.io/math.LegacyDec).Quo" {
+		if !strings.HasPrefix(cs.Callee, "(cosmossdk.io/math.LegacyDec).Quo") {
 			continue
 		}
 		v, ok := cs.Instr.(ssa.Value)
@@ -1093,7 +1093,10 @@ func checkTallyFormula(r *Result) {
 		okShape := ratEq(c, 1, 1) && m["PR"] == 1 && len(m) == 3 &&
 			strings.Contains(den, grp+".Support") && strings.Contains(den, grp+".Against") && strings.Contains(den, grp+".Invalid") && !strings.Contains(den, "*") && strings.Count(den, " + ") == 2
 		groupShares[grp]++
-		r.check(okShape, "TALLY-FORMULA", "(x/dispute/keeper.Keeper).TallyVote # "+num+" * PR / (votes of "+grp+")", P.Pos(cs.Pos()), "normal form: "+p.String())
+		// the share is rounded to 18 decimals by Quo: complementary shares (1/3 and 2/3 of different groups) add up to the
+		// whole; a truncating or upward-rounding division makes that sum one unit short or long after TruncateInt
+		okShape = okShape && cs.Callee == "(cosmossdk.io/math.LegacyDec).Quo"
+		r.check(okShape, "TALLY-FORMULA", "(x/dispute/keeper.Keeper).TallyVote # "+num+" * PR / (votes of "+grp+")", P.Pos(cs.Pos()), "normal form: "+p.String()+" ; divided with "+cs.Callee[strings.LastIndex(cs.Callee, ".")+1:])
 	}
 	for _, g := range []string{"Users", "Reporters", "Tokenholders"} {
 		r.check(groupShares[g] == 3, "TALLY-FORMULA", "(x/dispute/keeper.Keeper).TallyVote # three shares for group "+g, P.Pos(tv.Pos()), fmt.Sprintf("%d", groupShares[g]))
